@@ -79,7 +79,7 @@ def lexrun(seed, tier, log=print, extra_modes=('p',)):
         Rp = random.Random(seed * 1000 + i)
         cands = [b for b in inputs[i] if 2 <= len(b) <= 24]
         Rp.shuffle(cands)
-        chosen = cands[:cfg.get('n_partial', 30)]
+        chosen = sorted(set(cands[:cfg.get('n_partial', 30)]) | {b for b in inputs[i] if 1 <= len(b) <= 3})
         fam = set()
         for S in chosen:
             for k in range(len(S) + 1):
